@@ -562,6 +562,9 @@ class CmdMixin(object):
                 return self._npid_is(ctx, old["nameplates_id"], app, name)
             return False
         ctx["allowed"] += [p_flag, p_del]
+        if n.mid is not None:
+            # stamping the activity time of the mailbox the nameplate points at is not forbidden by any property
+            ctx["allowed"].append(self._p_mailbox_row(app, n.mid))
         was_holder = cm.side in n.holders()
         n.released.add(cm.side)
         rows_after = np_find(st.after, cm.app, name)
